@@ -57,12 +57,13 @@ let handle op args =
       (match dec kn payload_ok (bytes_of_hex b) mset_empty with
        | MOk m -> ["ok"; exts_tok strct m.m_ext; hex_of_bytes m.m_unknown]
        | MErr _ -> ["err"])
-  | "enc", [exts; unk] ->
+  | "enc", [path; exts; unk] ->
       let m = { m_ext = Stdlib.List.fold_left (fun acc (id, p) -> ext_merge id p acc) [] (exts_of_tok exts);
                 m_unknown = bytes_of_hex unk } in
-      (match encode m with
-       | MOk b -> ["ok"; hex_of_bytes b; hex_of_n (size m)]
-       | MErr _ -> ["err"; hex_of_n (size m)])
+      let enc, sz = if path = "f" then encode, size else encode_slow, size_slow in
+      (match enc m with
+       | MOk b -> ["ok"; hex_of_bytes b; hex_of_n (sz m)]
+       | MErr _ -> ["err"; hex_of_n (sz m)])
   | _ -> failwith ("mset: unknown op " ^ op)
 
 let () = register "mset" handle
